@@ -234,8 +234,15 @@ func (st *c01State) forward(calls []rec.Call, hires bool, meta int, desc string)
 	e.StartPath(0, 1, 1)
 	e.RelHLineTo(3)
 	e.RelHLineTo(4)
-	e.Reset(m.vb, m.pal)
-	e.HighResolutionCoordinates = hires
+	if meta == 0 && len(calls)%2 == 1 {
+		// default metadata: every other history runs on a zero-value Encoder that is never
+		// Reset and whose resolution flag is set before its first call
+		st.enc = encode.Encoder{}
+		e.HighResolutionCoordinates = hires
+	} else {
+		e.Reset(m.vb, m.pal)
+		e.HighResolutionCoordinates = hires
+	}
 	want := make([]rec.Call, 0, len(calls)+1)
 	pal := m.pal
 	want = append(want, rec.Call{M: rec.MReset, VB: m.vb, Pal: &pal})
